@@ -733,6 +733,102 @@ func runSplitStarter(c Case, root context.Context, obs *Obs) {
 	}
 }
 
+// runDownstream: a lazy conversion stage sits downstream of the construct and fails with an ordinary error
+// on its (k+1)-th item. ReadOne records the error and reports io.EOF: as far as the consumer can tell the
+// input is exhausted. It walks away - no Close, no cancel; its context stays live. Everything that was
+// started on behalf of the pipeline has to go away all the same.
+func runDownstream(c Case, root context.Context, obs *Obs) {
+	cctx, cancel := context.WithCancel(root)
+	_ = cancel
+	up := buildIter(c, false)
+	var calls atomic.Int64
+	out := fun.ConvertIterator(up, fun.ConverterErr(func(v int64) (int64, error) {
+		if int(calls.Add(1)) == c.K+1 {
+			return 0, errDownstream
+		}
+		return v, nil
+	}))
+	var got int
+	var err error
+	ok := bounded(rootBound, func() { got, err = take(cctx, iterReader(out), c.N+1) })
+	obs.Taken = got
+	if !ok || got != c.K || !errors.Is(err, io.EOF) {
+		obs.Stuck = !ok || stuckErr(root, err)
+		obs.Detail = fmt.Sprintf("expected %d items and io.EOF (the conversion fails on item %d of %d): got %d, err=%v returned=%v", c.K, c.K+1, c.N, got, err, ok)
+	}
+}
+
+// runPeeked: the inputs of MergeIterators / Chain / Buffer are themselves goroutine-backed (Variant/10) and
+// were advanced once under the application context (root: it outlives the consumer) before being handed
+// over; their sources block (context guarded) after their items, so their pumps are alive when the
+// consumer stops after k items (Variant%10: Close / cancel / Close then cancel).
+func runPeeked(c Case, root context.Context, obs *Obs) {
+	inner, stop := c.Variant/10, c.Variant%10
+	w := c.Workers
+	if c.Construct == cBuffer {
+		w = 1
+	}
+	inputs := make([]*fun.Iterator[int64], w)
+	for i := range inputs {
+		var err error
+		okp := bounded(rootBound, func() { inputs[i], err = peekedInput(root, inner, chunk(c.N, w, i)) })
+		if !okp || err != nil {
+			obs.Stuck, obs.Detail = true, fmt.Sprintf("could not peek at input %d: err=%v returned=%v", i, err, okp)
+			return
+		}
+	}
+	var out *fun.Iterator[int64]
+	switch c.Construct {
+	case cMerge:
+		out = fun.MergeIterators(inputs...)
+	case cChain:
+		out = itertool.Chain(inputs...)
+	default:
+		out = inputs[0].Buffer(c.Cap)
+	}
+	cctx, cancel := context.WithCancel(root)
+	defer cancel()
+	rd := iterReader(out)
+	var got int
+	var err error
+	ok := bounded(rootBound, func() { got, err = take(cctx, rd, c.K) })
+	obs.Taken = got
+	if !ok || got != c.K {
+		obs.Stuck = true
+		obs.Detail = fmt.Sprintf("could not take %d items: got %d, err=%v returned=%v", c.K, got, err, ok)
+	}
+	if stop != stCancel {
+		obs.CloseBlock = !closeTwice(rd)
+	}
+	if stop != stClose {
+		cancel()
+	}
+	if !bounded(callBound, func() { _, _ = rd.read(cctx) }) {
+		obs.Stuck = true
+		obs.Detail += " advance after stop did not return"
+	}
+}
+
+// runTiny: K rounds of "build the construct over n <= 1 items and read it to the end": every round must
+// end in io.EOF within the bound (the workers finish just as the goroutine that waits for them starts).
+func runTiny(c Case, root context.Context, obs *Obs) {
+	obs.EOF = true
+	for r := 0; r < c.K; r++ {
+		it := buildIter(c, false)
+		var got int
+		var err error
+		ok := bounded(callBound, func() { got, err = take(root, iterReader(it), c.N+1) })
+		if !ok || got != c.N || !errors.Is(err, io.EOF) {
+			obs.EOF = false
+			obs.Stuck = !ok || stuckErr(root, err)
+			obs.Taken = r
+			obs.Detail = fmt.Sprintf("round %d of %d: finite input of %d item(s) did not end in io.EOF within %v: got %d, err=%v returned=%v", r, c.K, c.N, callBound, got, err, ok)
+			return
+		}
+	}
+	obs.Taken = c.K
+}
+
 // runRange: a receiver ranges over the channel of BufferedChannel / Channel - it has no context, only
 // the closing of the channel ends it. After it has received k items the context the channel was built
 // with is cancelled: the pump goes away, and the channel has to be closed. Variant 1: the source blocks
@@ -825,7 +921,11 @@ func runScenario(c Case) Obs {
 	root, rootCancel := context.WithTimeout(context.Background(), rootBound)
 	switch c.Construct {
 	case cSplit:
-		if c.Mode == mStarterClose || c.Mode == mStarterCancl {
+		if c.Mode == mDownstreamEr {
+			runDownstream(c, root, &obs)
+		} else if c.Mode == mTinyExhaust {
+			runTiny(c, root, &obs)
+		} else if c.Mode == mStarterClose || c.Mode == mStarterCancl {
 			runSplitStarter(c, root, &obs)
 		} else {
 			runSplit(c, root, &obs)
@@ -833,9 +933,16 @@ func runScenario(c Case) Obs {
 	case cProcessParallel:
 		runProcessParallel(c, root, &obs)
 	default:
-		if c.Mode == mRangeCancel {
+		switch c.Mode {
+		case mRangeCancel:
 			runRange(c, root, &obs)
-		} else {
+		case mDownstreamEr:
+			runDownstream(c, root, &obs)
+		case mPeekedInputs:
+			runPeeked(c, root, &obs)
+		case mTinyExhaust:
+			runTiny(c, root, &obs)
+		default:
 			runSingle(c, root, &obs)
 		}
 	}
@@ -882,7 +989,7 @@ func oracle(run *kit.Run, c Case, o Obs) {
 		fail("not-closed", o.Detail)
 	case o.Stuck:
 		fail("consumer-stuck", o.Detail)
-	case c.Mode == mExhaust && !o.EOF:
+	case (c.Mode == mExhaust || c.Mode == mTinyExhaust) && !o.EOF:
 		fail("consumer-stuck", "finite input did not end in io.EOF: "+o.Detail)
 	}
 	if o.Leak > 0 {
@@ -914,7 +1021,9 @@ func firstLines(s string, n int) string {
 
 func execCase(run *kit.Run, c Case, verbose bool) {
 	c.Name, c.ModeName = names[c.Construct], modeNames[c.Mode]
-	if c.Construct == cGenerate && c.Variant != 0 {
+	if c.Mode == mPeekedInputs {
+		c.VarName = ", inputs " + innerNames[c.Variant/10] + " peeked under a live context, stop=" + modeNames[c.Variant%10]
+	} else if c.Construct == cGenerate && c.Variant != 0 {
 		c.VarName = ", generator " + behNames[c.Variant%10] + ", " + optNames[c.Variant/10]
 	}
 	o := runScenario(c)
@@ -957,7 +1066,7 @@ func main() {
 	run.Header = "From FunV Require Import Base.Tac Corr.C04_corr."
 	run.Footer = "Definition M := Eval vm_compute in mismatches cases.\nPrint M."
 	run.CaseType = "case"
-	run.Rule = "every construct (Split, ProcessParallel, Map, ParallelBuffer, Buffer, MergeIterators, GenerateParallel, Chain, MergeSlices, MergeSliceIterators, BufferedChannel, dt.Map, adt.Map) x input length n x cut point k in 0..n x stop mode (exhaust, Close, cancel, Close-then-cancel, abandon-one-Split-output-close-others, consumer blocked then Close twice from another goroutine / cancel) x workers x GOMAXPROCS; Split additionally with one consumer goroutine per output, each with its own context: output 0 (the starter) takes k items and is closed / its context cancelled while the others keep reading (finite source / source that blocks after n items) - they must return within 10 s; BufferedChannel / Channel additionally with a receiver that ranges over the channel while the construction context is cancelled after k items - the channel must be closed; GenerateParallel additionally x options {abort, ContinueOnError, ContinueOnPanic, both} x generator behaviour after its n values {io.EOF, waits for ctx and returns ctx.Err(), fails for ever ignoring ctx, panics for ever ignoring ctx} with the oracle 'no goroutine left AND the generator is not called any more'; distinct = distinct (construct, n, workers, cap, k, mode, variant); non-trivial = n >= 1 and the consumer stops before the end"
+	run.Rule = "every construct (Split, ProcessParallel, Map, ParallelBuffer, Buffer, MergeIterators, GenerateParallel, Chain, MergeSlices, MergeSliceIterators, BufferedChannel, dt.Map, adt.Map) x input length n x cut point k in 0..n x stop mode (exhaust, Close, cancel, Close-then-cancel, abandon-one-Split-output-close-others, consumer blocked then Close twice from another goroutine / cancel) x workers x GOMAXPROCS; Split additionally with one consumer goroutine per output, each with its own context: output 0 (the starter) takes k items and is closed / its context cancelled while the others keep reading (finite source / source that blocks after n items) - they must return within 10 s; BufferedChannel / Channel additionally with a receiver that ranges over the channel while the construction context is cancelled after k items - the channel must be closed; GenerateParallel additionally x options {abort, ContinueOnError, ContinueOnPanic, both} x generator behaviour after its n values {io.EOF, waits for ctx and returns ctx.Err(), fails for ever ignoring ctx, panics for ever ignoring ctx} with the oracle 'no goroutine left AND the generator is not called any more'; every iterator construct additionally with a lazy conversion stage downstream that fails with an ordinary error at item k+1 (the consumer sees k items and io.EOF and walks away: no Close, no cancel); MergeIterators / Chain / Buffer additionally over goroutine-backed inputs {Buffer(1), Map, Split(1)[0]} that were advanced once under a live application context before being handed over, stop {Close, cancel, both} at k; MergeIterators / Map / GenerateParallel / ParallelBuffer / Split additionally with thousands of rounds of reading an input of 0 or 1 items to io.EOF at GOMAXPROCS 2/4/8; distinct = distinct (construct, n, workers, cap, k, mode, variant); non-trivial = n >= 1 and the consumer stops before the end"
 
 	if run.Replay != "" {
 		var c Case
@@ -1066,6 +1175,60 @@ func main() {
 							}
 						}
 					}
+				}
+			}
+		}
+	}
+	// a lazy stage downstream fails with an ordinary error at item k+1; the consumer sees EOF and walks away
+	dns, dws := []int{1, 2, 4}, []int{1, 2, 3}
+	if run.Thorough() {
+		dns, dws = []int{1, 2, 3, 6, 9, 17}, []int{1, 2, 3, 8}
+	}
+	for round := 0; round < run.Pick(1, 4); round++ {
+		for _, k := range []int{cSplit, cMap, cParallelBuffer, cBuffer, cMerge, cGenerate, cChain, cMergeSlices, cDtMap, cAdtMap} {
+			for _, w := range dws {
+				caps := []int{0}
+				if k == cBuffer {
+					caps = []int{0, 1, 4}
+				}
+				if (k == cBuffer || k == cDtMap || k == cAdtMap) && w != 1 {
+					continue
+				}
+				for _, n := range dns {
+					for _, cp := range caps {
+						for cut := 0; cut < n; cut++ {
+							do(Case{Construct: k, N: n, Workers: w, Cap: cp, K: cut, Mode: mDownstreamEr})
+						}
+					}
+				}
+			}
+		}
+	}
+	// goroutine-backed inputs, advanced once under a live context, handed to MergeIterators / Chain / Buffer
+	for round := 0; round < run.Pick(1, 4); round++ {
+		for _, k := range []int{cMerge, cChain, cBuffer} {
+			for _, w := range []int{1, 2, 3} {
+				if k == cBuffer && w != 1 {
+					continue
+				}
+				for inner := inBuffer; inner <= inSplit; inner++ {
+					for stop := stClose; stop <= stCloseCancel; stop++ {
+						per := 3 // items per input; the peek takes one of them
+						for _, cut := range []int{0, 1, per - 1} {
+							do(Case{Construct: k, N: per * w, Workers: w, Cap: 1, K: cut, Mode: mPeekedInputs, Variant: 10*inner + stop})
+						}
+					}
+				}
+			}
+		}
+	}
+	// empty / one-item inputs read to the end, many rounds, real parallelism
+	tinyRounds := run.Pick(1500, 20000)
+	for _, k := range []int{cMerge, cMap, cGenerate, cParallelBuffer, cSplit} {
+		for _, w := range []int{1, 2, 3, 8} {
+			for _, n := range []int{0, 1} {
+				for _, procs := range []int{2, 4, 8} {
+					do(Case{Construct: k, N: n, Workers: w, K: tinyRounds, Mode: mTinyExhaust, Procs: procs})
 				}
 			}
 		}
